@@ -8,8 +8,14 @@ from . import c03
 
 RULE = ("every text of the C03 corpus (short texts over representative line shapes, random texts) plus named hard cases "
         "('$$' in values, leading grammar characters after the key, empty values, repeated keys, mixed-case names, deep and "
-        "empty sections, imports at any depth): schemaless.loadConfigFile, str(), reload, str() again on the real code and "
-        "on the model; non-trivial = accepted with at least one key or section; distinct by text")
+        "empty sections, imports at any depth), section trees over a tiny pool of types, names and key/value contents (nested and "
+        "sibling sections that are EQUAL as dicts to an enclosing one: empty in empty, the same keys and values repeated at "
+        "several depths), and texts whose lines begin with a non-blank invisible character (U+FEFF, U+200B, U+2060, U+00AD ...) "
+        "or an exotic blank, on the first physical line and on later ones (below comments, blank lines, sections, imports), "
+        "so that str() - which drops comments and re-orders imports, keys and sections - writes a line at another physical "
+        "position than it was read from: schemaless.loadConfigFile, str(), reload, str() again on the real code and "
+        "on the model; an exception from str() or from the reload is a round-trip failure; non-trivial = accepted with at "
+        "least one key or section; distinct by text")
 
 HARD = [["k $$v"], ["k $$"], ["k a$$b$$"], ["%import a$$b"], ["k <v>"], ["k %v"], ["k #v"], ["k (v)"], ["k"], ["k", "k", "k x"],
         ["K v", "k w"], ["<A B>", "</a>"], ["<a/ >"], ["<a b/ >"], ["<a/ b>", "</a/>"], ["<a/ >", "</a/>"], ["<a b/ >", "</a>"], ["<x>", "<a/ >", "k v", "</a/>", "</x>"], ["<a>", "<b>", "<c>", "<d/>", "</c>", "</b>", "</a>"],
@@ -17,6 +23,95 @@ HARD = [["k $$v"], ["k $$"], ["k a$$b$$"], ["%import a$$b"], ["k <v>"], ["k %v"]
         ["<a $$b>", "</a>"], ["<a b$$c/>"], ["<a $$$$x>", "k v", "</a>"], ["<x>", "<a $$>", "</a>", "</x>"], ["<a ${b}>".replace("$", "$$"), "</a>"],
         ["k " + "v" * 9000], ["<a>", "k " + " ".join("h%d" % i for i in range(4000)), "</a>"], ["<a>", "<b>", "k " + " ".join("h%d" % i for i in range(900)), "</b>", "</a>"], ["<a>", "        k  " + " ".join("host%d" % i for i in range(1500)), "</a>"], ["<a>", "<b>", "\t\t\tk " + "x" * 4090 + " y z", "</b>", "</a>"],
         ["k v\x0cw"], ["k  v   w"], ["<a n>", "</a>", "<a n>", "</a>"], ["k </a>"], ["k $$(x)"], ["k ${a}".replace("$", "$$")]]
+
+# ---- section trees over a tiny pool: nested / sibling sections that compare EQUAL as dicts (schemaless.Section is a dict
+# subclass: equality looks at keys and value lists only), identical types and names at several depths, empty in empty
+POOL = [[], ["k v"], ["k v", "k w"], ["k v", "j w"], ["k"], ["port 80"]]
+
+
+def _render_tree(node, depth, out, empty_form, keys_last=False):
+    typ, name, keys, subs = node
+    ind = "  " * depth
+    head = ind + "<" + typ + (" " + name if name else "")
+    if not keys and not subs and empty_form:
+        out.append(head + "/>")
+        return
+    out.append(head + ">")
+    for k in ([] if keys_last else keys):
+        out.append(ind + "  " + k)
+    for x in subs:
+        _render_tree(x, depth + 1, out, empty_form, keys_last)
+    for k in (keys if keys_last else []):
+        out.append(ind + "  " + k)
+    out.append(ind + "</" + typ + ">")
+
+
+def chain_texts():
+    """every chain of 2..3 nested sections x every assignment of pool contents to the levels x {one type, different types}
+    x {leaf written <x/> when empty, always <x>..</x>} x {nothing, a key} at top level"""
+    out = []
+    for d in (2, 3):
+        for contents in itertools.product(POOL[:4], repeat=d):
+            for same in (True, False):
+                for empty_form in (True, False):
+                    if empty_form and contents[-1]:
+                        continue
+                    node = None
+                    for lvl in range(d - 1, -1, -1):
+                        node = ("s" if same else "abc"[lvl], "" if not same else "n%d" % lvl, list(contents[lvl]), [node] if node else [])
+                    for top in ([], list(contents[0])) if contents[0] else ([],):
+                        ls = list(top)
+                        _render_tree(node, 0, ls, empty_form)
+                        out.append(ls)
+    return out
+
+
+def random_tree_text(rng):
+    types = rng.choice([["s"], ["a", "b"], ["server", "S", "é"]])
+    names = rng.choice([[""], ["", "n"], ["main", "backup", ""]])
+    pool = rng.sample(POOL, rng.randint(1, 3))
+
+    def node(depth):
+        subs = [node(depth + 1) for _ in range(rng.choice([0, 0, 1, 1, 2, 3]) if depth < 5 else 0)]
+        return (rng.choice(types), rng.choice(names), list(rng.choice(pool)), subs)
+    ls = list(rng.choice(pool)) if rng.random() < 0.5 else []
+    if rng.random() < 0.2:
+        ls.insert(0, "%import p.q")
+    for _ in range(rng.randint(1, 3)):
+        _render_tree(node(0), 0, ls, rng.random() < 0.5, rng.random() < 0.25)
+    return ls
+
+
+# ---- lines that begin with a character which is not blank for str.strip() yet invisible (format characters), or with an
+# exotic blank that IS stripped; read on the first physical line and on later ones.  str() drops comments and blank lines and
+# writes imports, sorted keys, then sections: the line is re-read at another physical position than it was first read from
+INVISIBLE = ["\ufeff", "\u200b", "\u2060", "\xad", "\u200e", "\u180e", "\ufffe", "\xa0", "\u3000", "\x1f"]
+
+
+def position_texts():
+    out = []
+    leaders = [[], ["# c"], [""], ["", "# c", "\t"], ["<s>", "  k v", "</s>"], ["%import p.q"], ["zz 1"], ["<s/>", "# c"]]
+    trailers = [[], ["<t/>"], ["a 1"], None]
+    for ch in INVISIBLE:
+        for body in (ch + "k v", ch + ch + "k v", ch + "<n>", ch + " v", ch, ch + "#c x", ch + "%import p", ch + "</a>", "k" + ch + " v", ch + " k v"):
+            for lead in leaders:
+                for trail in trailers:
+                    tr = [body.split(" ")[0] + " other"] if trail is None else trail
+                    out.append(lead + [body] + tr)
+            out.append(["<w>", "  " + body, "</w>"])
+            out.append(["# c", "<w n>", "<x>", body, "</x>", "\t" + body + " 2", "</w>", body])
+    return out
+
+
+def decorate(rng, lines):
+    """a C03 random text in which some key lines begin (after the indentation) with an invisible character"""
+    out = []
+    for l in lines:
+        st = l.strip()
+        if st and st[0] not in "<%#" and rng.random() < 0.35:
+            l = l[:len(l) - len(l.lstrip())] + rng.choice(INVISIBLE) * rng.choice([1, 1, 2]) + l.lstrip()
+        out.append(l)
+    return out
 
 
 def sec_struct(s):
@@ -43,20 +138,79 @@ def real_load(text):
         return ["internal", type(e).__name__]
 
 
+def _has_equal_nesting(sec, path):
+    """(evidence only) some section equals, as a dict, one of the typed sections enclosing it"""
+    for x in sec.sections:
+        if any(dict(x) == dict(p) for p in path) or _has_equal_nesting(x, path + (x,)):
+            return True
+    return False
+
+
+def _moved_invisible(lines, printed):
+    """(evidence only) some line beginning with an invisible character is printed on another physical line than it was read from"""
+    src = {i for i, l in enumerate(lines) if l.strip()[:1] in INVISIBLE}
+    dst = {i for i, l in enumerate(printed.split("\n")) if l.strip()[:1] in INVISIBLE}
+    return bool(src or dst) and src != dst
+
+
+def real_str(cfg):
+    """str() of a loaded configuration; an exception is an outcome, not a crash of the check"""
+    try:
+        return ["ok", str(cfg)]
+    except Exception as e:
+        return ["exc", type(e).__name__, str(e)[:200]]
+
+
+def text_class(s):
+    return "dollar" if "$" in s else "slash" if any(l.rstrip().endswith("/>") or "/ " in l or l.strip().endswith("/") for l in s.split("\n") if l.strip().startswith("<")) else "other"
+
+
+def round_trip(ctx, t, cfg, s1, stream=None):
+    """the property's oracle on one accepted text: s1 = real_str(cfg)"""
+    if s1[0] != "ok":
+        ctx.violate("str() of an accepted configuration raises %s (%s): %r" % (s1[1], s1[2], t),
+                    {"stream": stream, "lines": t, "loaded": sec_struct(cfg), "str": s1}, signature="C17:str-raises:" + text_class("\n".join(t)))
+        return
+    s1 = s1[1]
+    r2 = real_load(s1)
+    cls = text_class(s1)
+    if r2[0] != "ok":
+        ctx.violate("str() of an accepted configuration does not load again (%s): %r -> %r" % (r2[1] if len(r2) > 1 else r2[0], t, s1),
+                    {"stream": stream, "lines": t, "str": s1, "first": sec_struct(cfg), "reload": r2[:2]}, signature="C17:reload-fails:" + cls)
+        return
+    if sec_struct(r2[1]) != sec_struct(cfg):
+        ctx.violate("reloading str() gives a different structure: %r -> %r" % (t, s1),
+                    {"stream": stream, "lines": t, "str": s1, "first": sec_struct(cfg), "second": sec_struct(r2[1])}, signature="C17:structure:" + cls)
+        return
+    s2 = real_str(r2[1])
+    if s2[0] != "ok":
+        ctx.violate("str() of the reloaded configuration raises %s: %r -> %r" % (s2[1], t, s1), {"stream": stream, "lines": t, "str": s1, "str2": s2},
+                    signature="C17:str-raises:" + cls)
+    elif s2[1] != s1:
+        ctx.violate("serialising the reload gives a different text", {"stream": stream, "lines": t, "str": s1, "str2": s2[1]}, signature="C17:unstable:" + cls)
+
+
 def run(ctx):
     obligations, discharged, names = core.standard_prelude(ctx, ["ZCV.Props.C17"])
     shapes = [s for s in c03.SHAPES if "$x" not in s and "${x" not in s]
     texts = [list(t) for n in range(1, 4) for t in itertools.product(shapes[:28], repeat=n)] if ctx.thorough() else \
             [list(t) for n in range(1, 3) for t in itertools.product(shapes, repeat=n)]
     texts += [c03.random_text(ctx.rng) for _ in range(30000 if ctx.thorough() else 3000)]
-    texts = HARD + texts
+    trees = [random_tree_text(ctx.rng) for _ in range(8000 if ctx.thorough() else 800)]
+    posrand = [decorate(ctx.rng, c03.random_text(ctx.rng)) for _ in range(10000 if ctx.thorough() else 1000)]
+    # (directed streams first, random ones after: the replay of a class then names its smallest directed member)
+    streams = [("hard", HARD), ("chains", chain_texts()), ("position", position_texts()), ("trees", trees), ("corpus", texts),
+               ("position-random", posrand)]
+    tags = [tag for tag, ts in streams for _ in ts]
+    texts = [t for _, ts in streams for t in ts]
     ans = core.driver_batch([[Atom("schemaless"), None, t] for t in texts]) if ctx.driver_ok else [None] * len(texts)
-    for t, a in zip(texts, ans):
+    for tag, t, a in zip(tags, texts, ans):
         text = "".join(l + "\n" for l in t)
         r = real_load(text)
         ctx.evaluations += 1
         ctx.count("load:" + r[0])
-        has_dir = any(l.strip().startswith(("%define", "%include")) and len(l.split()) > 1 for l in t)
+        ctx.count("stream:" + tag)
+        s1 = real_str(r[1]) if r[0] == "ok" else None
         if a is not None:
             mk = "ok" if a[0] == "ok" else "refused" if (a[0] == "internal" and a[1] == "NotImplementedError") else str(a[0])
             if mk != r[0]:
@@ -65,27 +219,19 @@ def run(ctx):
                 ms = model_struct(a[1], a[2])
                 if ms != sec_struct(r[1]):
                     ctx.disagree("schemaless-tree", t, sec_struct(r[1]), ms)
-                elif a[3] != str(r[1]):
-                    ctx.disagree("schemaless-str", t, str(r[1]), a[3])
+                elif s1[0] != "ok" or a[3] != s1[1]:
+                    ctx.disagree("schemaless-str", t, s1, a[3])
         if r[0] != "ok":
             continue
         cfg = r[1]
         if cfg or cfg.sections:
             ctx.nontriv(tuple(t))
-        s1 = str(cfg)
-        r2 = real_load(s1)
-        cls = "dollar" if "$" in s1 else "slash" if any(l.rstrip().endswith("/>") or "/ " in l or l.strip().endswith("/") for l in s1.split("\n") if l.strip().startswith("<")) else "other"
-        if r2[0] != "ok":
-            ctx.violate("str() of an accepted configuration does not load again (%s): %r -> %r" % (r2[1] if len(r2) > 1 else r2[0], t, s1),
-                        {"lines": t, "str": s1, "reload": r2[:2]}, signature="C17:reload-fails:" + cls)
-            continue
-        if sec_struct(r2[1]) != sec_struct(cfg):
-            ctx.violate("reloading str() gives a different structure: %r -> %r" % (t, s1),
-                        {"lines": t, "str": s1, "first": sec_struct(cfg), "second": sec_struct(r2[1])}, signature="C17:structure:" + cls)
-            continue
-        s2 = str(r2[1])
-        if s2 != s1:
-            ctx.violate("serialising the reload gives a different text", {"lines": t, "str": s1, "str2": s2}, signature="C17:unstable:" + cls)
+            ctx.count("accepted-nontrivial:" + tag)
+        if tag in ("chains", "trees") and _has_equal_nesting(cfg, ()):
+            ctx.count("accepted-with-a-section-equal-to-an-enclosing-one")
+        if tag.startswith("position") and s1[0] == "ok" and _moved_invisible(t, s1[1]):
+            ctx.count("accepted-with-an-invisible-line-start-moved-by-str")
+        round_trip(ctx, t, cfg, s1, tag)
     # values that only an environment variable can produce (empty, blank-edged, multi-line): the text format cannot
     # write them back (no quoting) - the listed finding C17-env-values
     import os
@@ -99,7 +245,12 @@ def run(ctx):
             ctx.evaluations += 1
             if r[0] != "ok":
                 continue
-            s1 = str(r[1])
+            s1 = real_str(r[1])
+            if s1[0] != "ok":
+                ctx.violate("str() of an accepted configuration raises %s: %r with %s=%r" % (s1[1], t, var, val),
+                            {"lines": t, "env": {var: val}, "str": s1, "loaded": sec_struct(r[1])}, signature="C17:str-raises:env")
+                continue
+            s1 = s1[1]
             r2 = real_load(s1)
             if r2[0] != "ok" or sec_struct(r2[1]) != sec_struct(r[1]):
                 ctx.violate("a value obtained from an environment variable does not survive str() and re-reading: %r with %s=%r -> %r" % (t, var, val, s1),
@@ -131,12 +282,12 @@ def run(ctx):
             ctx.evaluations += 1
             if r[0] == "ok":
                 ctx.violate("schema-less loader silently accepted %r (after a schema-based load handled the same directives)" % t,
-                            {"lines": t, "result": sec_struct(r[1]), "str": str(r[1])}, signature="C17:directive-dropped")
+                            {"lines": t, "result": sec_struct(r[1]), "str": real_str(r[1])}, signature="C17:directive-dropped")
         again = schema_load()
         if again != first:
             ctx.violate("after schema-less loads refused %%define/%%include the schema-based loader gives %r (before: %r)" % (again, first),
                         {"before": first, "after": again}, signature="C17:schema-loader-directives")
-    ctx.sample({"text": HARD[5], "str": str(real_load("".join(l + "\n" for l in HARD[5]))[1])})
+    ctx.sample({"text": HARD[5], "str": real_str(real_load("".join(l + "\n" for l in HARD[5]))[1])})
     return core.finish(ctx, obligations, discharged, names, RULE,
                        "lake build ZCV.Props.C17 && lake env lean ZCV/Audit/C17.lean",
                        ["structures compared: type, name, key->value lists, sections in order, imports"])
